@@ -99,6 +99,10 @@ structure Env where
   txs : List (Nat × Tx) := []
   blocks : List (Nat × Block) := []
   window : Int := 0
+  /-- (repaired `recoverUnconfirmedTx`) the rolled-back pending transactions that the ledger records as confirmed on the
+  chain a walk ends on (their block and the destination are on the main chain, their block not above it): they are not
+  re-admitted. Supplied per walk by the caller, who owns the ledger. -/
+  skipRepost : List Nat := []
 deriving Repr, Inhabited
 
 def Env.tx (e : Env) (i : Nat) : Tx := (lookup e.txs i).getD default
@@ -305,11 +309,24 @@ def parentMissing (e : Env) (pool : List Nat) : List Nat → List Nat → Bool
     (refTxs (e.tx i)).any (fun p => pool.contains p && !before.contains p) ||
     parentMissing e pool (before ++ [i]) rest
 
+/-- `processUnconfirmTxs` (repaired): a pending transaction of the block (it is skipped when the block is applied) read a
+key that an earlier transaction of the block wrote, but not that version; `written` = last version of each key written by
+the block so far -/
+def staleMember (e : Env) (pool : List Nat) : List (String × Ver) → List Nat → Bool
+  | _, [] => false
+  | written, i :: rest =>
+    let t := e.tx i
+    (pool.contains i && t.kin.any (fun ki => match lookup written ki.key with
+      | some v => ki.ver != some v
+      | none => false)) ||
+    staleMember e pool (t.kout.zipIdx.foldl (fun w (ko, off) => put w ko.key (i, off)) written) rest
+
 /-- `PlayAndRepost` -/
 def play (e : Env) (s : St) (ledgerH : Int) (b : Block) : St × Res :=
   if b.pre ≠ some s.pointer then (s, .premismatch) else
   if blockHasDupInput e b.txs then (s, .dupinput) else
   if parentMissing e s.pool [] b.txs then (s, .utxo) else
+  if staleMember e s.pool [] b.txs then (s, .rwset) else
   let inBlock := s.pool.filter (fun i => b.txs.contains i)
   let rest := s.pool.filter (fun i => !b.txs.contains i)
   let seeds := rest.filter (fun i => conflicts e s.pool b.txs i)
@@ -370,6 +387,10 @@ def todoBlock (e : Env) (s : St) (ledgerH : Int) (b : Block) : Option St :=
   | some (s2, .ok) => some { s2 with pointer := b.id, irrev := nextIrrev e.window s.irrev b.height }
   | _ => none
 
+/-- the rolled-back pending transactions a walk re-admits (repaired `recoverUnconfirmedTx`: those the ledger records as
+confirmed on the chain the walk ends on are left out) -/
+def repostList (e : Env) (s : St) : List Nat := s.pool.filter (fun i => !e.skipRepost.contains i)
+
 /-- `Walk`: roll the pool back, undo (refusing at the irreversible height unless pruning), apply, then replay
 the rolled-back pool transactions that are still admissible (`recoverUnconfirmedTx`, oldest first).
 A failing step leaves the state where the last completed block batch put it; the pool stays rolled back. -/
@@ -396,7 +417,7 @@ def walk (e : Env) (s : St) (ledgerH : Int) (dest : Nat) (prune : Bool) : St × 
   let (s2, ok2) := todoAll todo s1
   if !ok2 then (s2, false) else
   -- 4. recover the pool (oldest first): a transaction is re-admitted if it still passes admission
-  let s3 := s.pool.foldl (fun st i => (doTx e st ledgerH i).1) s2
+  let s3 := (repostList e s).foldl (fun st i => (doTx e st ledgerH i).1) s2
   (s3, true)
 
 end XV.Chain
